@@ -6,7 +6,7 @@ import ast
 from sa.astx import call_attr, call_name, src, walk_local
 from sa.selftest import Mutant, Silent
 from sa.source import methods
-from sa.props._lib_j import asserted_eq, asserted_in, edge_asserts, local_defs, node_calls, normal_exits, params
+from sa.props._lib_j import body_always_entered, run_sections, asserted_eq, asserted_in, edge_asserts, local_defs, node_calls, normal_exits, params
 
 PROPERTY = "C54"
 FTPM = "protocols/ftp.py"
@@ -23,6 +23,7 @@ EXPLANATION = (
     "child() once per segment (C26 decides child); (3) toSegments appends only the loop's own separator-free segment, never "
     "'..' / '.' / '', pops only a non-empty stack, and returns a list that started as [] or a copy of cwd. Not decided: "
     "symbolic links (excluded by the statement), FilePath.child itself (C26), the realm's choice of root."
+    "Every anchor function is also checked to be entered on every call (no memoising/wrapping decorator, duplicate definition or rebinding). "
 )
 ASSUMPTIONS = ["FilePath.child rejects anything that is not a direct child (property C26)", "IFTPShell implementations other than the two in ftp.py are out of scope"]
 
@@ -66,7 +67,7 @@ def _is_tosegments(e):
     return isinstance(e, ast.Call) and call_name(e) == "toSegments" and len(e.args) == 2 and src(e.args[0]) == "self.workingDirectory"
 
 
-def check(ctx):
+def _s_protocol(ctx, S):
     ctx.mod(FTPM)
     # ================= (1) FTP protocol: only toSegments() results reach the shell =============================
     cls = ctx.cls(FTPM, "FTP")
@@ -98,6 +99,10 @@ def check(ctx):
                           f"the path handed to the shell is not (only) a result of toSegments(self.workingDirectory, <command argument>): {why} - a client "
                           f"path with '..' or an absolute path reaches the filesystem un-normalised")
     ctx.floor("protocol/shell-gets-normalised-segments", nsites, 11, "self.shell.<op>(path) call sites")
+
+
+def _s_cwd(ctx, S):
+    cls = ctx.cls(FTPM, "FTP")
     nwd = 0
     for mname, m in methods(cls).items():
         for n in ast.walk(m):
@@ -123,6 +128,9 @@ def check(ctx):
                 ctx.violation("protocol/working-directory-normalised", ctx.construct(f"{QF}.FTP.{mname}", n), "self.workingDirectory is modified in place")
     ctx.floor("protocol/working-directory-normalised", nwd, 1, "assignments of self.workingDirectory")
 
+
+
+def _s_tosegments(ctx, S):
     # ================= (3) toSegments ==========================================================================
     f = ctx.func(FTPM, "toSegments")
     g = ctx.cfg(f)
@@ -177,6 +185,10 @@ def check(ctx):
     for n in g.ids(lambda n: n.kind == "stmt" and isinstance(n.ast, ast.Raise)):
         ctx.check("InvalidPath" in src(g.node(n).ast), "normalise/rejects-with-InvalidPath", ctx.construct(q, g.node(n).ast), "a rejected path raises something other than InvalidPath "
                   "(every ftp_* handler converts exactly InvalidPath)")
+
+
+def _s_invalid_path(ctx, S):
+    cls = ctx.cls(FTPM, "FTP")
     # handlers catch InvalidPath around every toSegments call in FTP
     for mname, m in methods(cls).items():
         for c in ast.walk(m):
@@ -192,12 +204,18 @@ def check(ctx):
                 ctx.check(ok, "protocol/invalid-path-rejected", ctx.construct(f"{QF}.FTP.{mname}", "toSegments(...)"),
                           "InvalidPath from toSegments is not turned into an FTP error reply in this handler")
 
+
+
+def _s_path(ctx, S):
     # ================= (2) shells ===============================================================================
     fpth = ctx.func(FTPM, "FTPAnonymousShell._path")
     okp = len(fpth.body) >= 1 and isinstance(fpth.body[-1], ast.Return) and src(fpth.body[-1].value) == f"self.filesystemRoot.descendant({params(fpth)[1]})" and \
         not [s for s in fpth.body[:-1] if not (isinstance(s, ast.Expr) and isinstance(s.value, ast.Constant))]
     ctx.check(okp, "shell/_path-is-descendant-of-root", QF + ".FTPAnonymousShell._path",
               "_path is not `return self.filesystemRoot.descendant(segments)`: segments are joined to the root without FilePath.child's containment check")
+
+
+def _s_descendant(ctx, S):
     desc = [x for x in ctx.mod(FPM).find_all("AbstractFilePath.descendant") if isinstance(x, ast.FunctionDef)]
     ctx.need(desc, "AbstractFilePath.descendant")
     fd = desc[0]
@@ -216,6 +234,9 @@ def check(ctx):
         okd = okd and [src(d) for d in init] == ["self"]
     ctx.check(okd, "shell/descendant-is-child-per-segment", "twisted.python.filepath.AbstractFilePath.descendant",
               "descendant() does not apply child() once per segment starting from self (a segment bypasses the containment check)")
+
+
+def _s_path_only(ctx, S):
     for cname in ("FTPAnonymousShell", "FTPShell"):
         scls = ctx.cls(FTPM, cname)
         for mname, m in methods(scls).items():
@@ -225,6 +246,9 @@ def check(ctx):
         if "_path" in methods(scls) and cname != "FTPAnonymousShell":
             ctx.violation("shell/_path-is-descendant-of-root", f"{QF}.{cname}._path", "the subclass overrides _path")
 
+
+
+def _s_sinks(ctx, S):
     nsinks = 0
     for cname in ("FTPAnonymousShell", "FTPShell"):
         scls = ctx.cls(FTPM, cname)
@@ -340,6 +364,17 @@ def check(ctx):
                         ctx.check([src(a) for a in c.args] == [pr[1]], "shell/helper-gets-confined-path", ctx.construct(qm, "getattr(self, '_stat_' + k)(<path>)"),
                                   "the stat helpers are not given _statNode's own (confined) path")
     ctx.floor("shell/sink-path-from-_path", nsinks, 20, "filesystem sinks in the shells")
+
+
+def _s_body(ctx, S):
+    why = "path normalisation / containment is performed by this body on every command; a memoising or wrapping decorator can hand back a path computed for another call"
+    body_always_entered(ctx, FTPM, ["toSegments", "FTPAnonymousShell._path"], "anchor/body-entered-on-every-call", "twisted.protocols.ftp", why)
+    body_always_entered(ctx, FPM, ["AbstractFilePath.descendant"], "anchor/body-entered-on-every-call", "twisted.python.filepath", why)
+
+
+def check(ctx):
+    run_sections(ctx, [("protocol", _s_protocol), ("working-directory", _s_cwd), ("toSegments", _s_tosegments), ("invalid-path", _s_invalid_path), ("_path", _s_path),
+                       ("descendant", _s_descendant), ("_path-only", _s_path_only), ("shell-sinks", _s_sinks), ("body-entered", _s_body)])
 
 
 _F = FTPM
